@@ -593,8 +593,8 @@ func (p *jsonPathParser) pushCompareNE(
 
 func (p *jsonPathParser) pushCompareGE(
 	leftParam, rightParam *syntaxBasicCompareParameter) {
-	if leftParam.isLiteral {
-		p.pushCompareLE(rightParam, leftParam)
+	if leftParam.isLiteral && !rightParam.isLiteral {
+		p.push(p._createBasicCompareQuery(rightParam, leftParam, &syntaxCompareLE{}))
 		return
 	}
 	p.push(p._createBasicCompareQuery(leftParam, rightParam, &syntaxCompareGE{}))
@@ -602,8 +602,8 @@ func (p *jsonPathParser) pushCompareGE(
 
 func (p *jsonPathParser) pushCompareGT(
 	leftParam, rightParam *syntaxBasicCompareParameter) {
-	if leftParam.isLiteral {
-		p.pushCompareLT(rightParam, leftParam)
+	if leftParam.isLiteral && !rightParam.isLiteral {
+		p.push(p._createBasicCompareQuery(rightParam, leftParam, &syntaxCompareLT{}))
 		return
 	}
 	p.push(p._createBasicCompareQuery(leftParam, rightParam, &syntaxCompareGT{}))
@@ -611,8 +611,8 @@ func (p *jsonPathParser) pushCompareGT(
 
 func (p *jsonPathParser) pushCompareLE(
 	leftParam, rightParam *syntaxBasicCompareParameter) {
-	if leftParam.isLiteral {
-		p.pushCompareGE(rightParam, leftParam)
+	if leftParam.isLiteral && !rightParam.isLiteral {
+		p.push(p._createBasicCompareQuery(rightParam, leftParam, &syntaxCompareGE{}))
 		return
 	}
 	p.push(p._createBasicCompareQuery(leftParam, rightParam, &syntaxCompareLE{}))
@@ -620,8 +620,8 @@ func (p *jsonPathParser) pushCompareLE(
 
 func (p *jsonPathParser) pushCompareLT(
 	leftParam, rightParam *syntaxBasicCompareParameter) {
-	if leftParam.isLiteral {
-		p.pushCompareGT(rightParam, leftParam)
+	if leftParam.isLiteral && !rightParam.isLiteral {
+		p.push(p._createBasicCompareQuery(rightParam, leftParam, &syntaxCompareGT{}))
 		return
 	}
 	p.push(p._createBasicCompareQuery(leftParam, rightParam, &syntaxCompareLT{}))
